@@ -11,6 +11,7 @@
 # limitations under the License.
 
 import collections
+import copy
 import itertools
 from abc import abstractmethod
 from typing import Iterable, List, Optional, Sequence, Tuple, Union
@@ -285,9 +286,7 @@ class StructuredGrid(Grid):
     def backUp(self):
         """Gather internal info that should be restored within a retainState."""
         self._backup = (
-            self._unitSteps,
-            self._bounds,
-            self._offset,
+            *copy.deepcopy((self._unitSteps, self._bounds, self._offset)),
             getattr(self, "_backup", None),
         )
 
